@@ -3,6 +3,8 @@ package rules
 import (
 	"fmt"
 	"go/ast"
+	"go/constant"
+	"go/token"
 	"go/types"
 	"math/big"
 	"sort"
@@ -658,6 +660,121 @@ func (c *Ctx) stdNonNegative() {
 	if !ok {
 		c.violate("range/std", "volatility.(*MovingStd).Compute", "sent value is not a square root", fi.Decl.Pos(), "the standard deviation sent is no longer the result of math.Sqrt: its non-negativity (and that of the Bollinger band width) is not established")
 	}
+	// the radicand is non-negative by construction (a sum of squares over a positive count): a
+	// difference such as E[x^2] - E[x]^2 is non-negative only in exact arithmetic, in floating
+	// point it cancels to a small negative number on a flat window and the square root is NaN
+	info := fi.Pkg.TypesInfo
+	nSqrt := 0
+	ast.Inspect(fi.Decl.Body, func(n ast.Node) bool {
+		call, isCall := n.(*ast.CallExpr)
+		if !isCall || calleeName(info, call) != "math.Sqrt" || len(call.Args) != 1 {
+			return true
+		}
+		nSqrt++
+		why := nonNegative(info, fi.Decl.Body, call.Args[0], 0)
+		c.Run.Oblige(why == "")
+		if why != "" {
+			c.violate("range/std", "volatility.(*MovingStd).Compute", "radicand "+short(why, 60), call.Pos(), "the argument of math.Sqrt is not non-negative by construction ("+why+"): when rounding makes it negative the standard deviation, and with it both Bollinger bands and the band width, are NaN")
+		}
+		return true
+	})
+	c.Run.Count("std_radicands", nSqrt)
+	c.Run.Floor("std_radicands", 1)
+}
+
+// nonNegative: "" when e is non-negative by construction - a non-negative constant, an even
+// power or a product of an expression with itself, an absolute value, a sum, product or quotient
+// of such, a configuration period, or a variable all of whose assignments in body are of these
+// forms (= and += only). Otherwise the sub-expression that is not.
+func nonNegative(info *types.Info, body *ast.BlockStmt, e ast.Expr, depth int) string {
+	e = ast.Unparen(e)
+	if depth > 6 {
+		return exprString(e)
+	}
+	if tv, ok := info.Types[e]; ok && tv.Value != nil {
+		if constant.Sign(tv.Value) >= 0 {
+			return ""
+		}
+		return exprString(e)
+	}
+	switch x := e.(type) {
+	case *ast.CallExpr:
+		if tv, ok := info.Types[x.Fun]; ok && tv.IsType() && len(x.Args) == 1 {
+			return nonNegative(info, body, x.Args[0], depth+1)
+		}
+		switch calleeName(info, x) {
+		case "math.Abs", "math.Sqrt":
+			return ""
+		case "math.Pow":
+			if len(x.Args) == 2 {
+				if tv, ok := info.Types[x.Args[1]]; ok && tv.Value != nil {
+					if v, exact := constant.Int64Val(constant.ToInt(tv.Value)); exact && v%2 == 0 {
+						return ""
+					}
+				}
+			}
+		}
+		return exprString(e)
+	case *ast.BinaryExpr:
+		switch x.Op {
+		case token.MUL:
+			if exprString(ast.Unparen(x.X)) == exprString(ast.Unparen(x.Y)) && callFree(info, x.X) {
+				return ""
+			}
+			fallthrough
+		case token.ADD, token.QUO:
+			if w := nonNegative(info, body, x.X, depth+1); w != "" {
+				return w
+			}
+			return nonNegative(info, body, x.Y, depth+1)
+		}
+		return exprString(e)
+	case *ast.SelectorExpr:
+		// a period of the configuration (positive for admissible configurations)
+		if v, ok := info.ObjectOf(x.Sel).(*types.Var); ok && v.IsField() && strings.Contains(x.Sel.Name, "Period") {
+			return ""
+		}
+		return exprString(e)
+	case *ast.Ident:
+		obj := info.ObjectOf(x)
+		if obj == nil {
+			return exprString(e)
+		}
+		assigned, why := 0, ""
+		ast.Inspect(body, func(n ast.Node) bool {
+			switch s := n.(type) {
+			case *ast.AssignStmt:
+				for i, l := range s.Lhs {
+					id, ok := l.(*ast.Ident)
+					if !ok || info.ObjectOf(id) != obj {
+						continue
+					}
+					assigned++
+					if len(s.Lhs) != len(s.Rhs) || (s.Tok != token.ASSIGN && s.Tok != token.DEFINE && s.Tok != token.ADD_ASSIGN) {
+						why = exprString(e) + " is updated by " + s.Tok.String()
+						continue
+					}
+					if w := nonNegative(info, body, s.Rhs[i], depth+1); w != "" && why == "" {
+						why = w
+					}
+				}
+			case *ast.IncDecStmt:
+				if id, ok := s.X.(*ast.Ident); ok && info.ObjectOf(id) == obj && s.Tok == token.DEC {
+					why = exprString(e) + "--"
+				}
+			case *ast.UnaryExpr:
+				if id, ok := s.X.(*ast.Ident); ok && s.Op == token.AND && info.ObjectOf(id) == obj {
+					why = "&" + exprString(e)
+				}
+			}
+			return true
+		})
+		if assigned == 0 && why == "" {
+			return exprString(e)
+		}
+		return why
+	}
+	return exprString(e)
 }
 
 // sendsAreSqrt: every value the stage sends is (a conversion of) a math.Sqrt call, directly or
